@@ -195,3 +195,29 @@ def primed_exporter():
 def via_primed(ex, doc, **kw):
     okw = {('kern_type' if k == 'encoding' else k): v for k, v in kw.items()}
     return ex.export_string(doc, kp.core.generic.Generic.parse_options_to_ExportOptions(**okw))
+
+
+def via_reused_options(doc, **kw):
+    """the export obtained with ONE caller-owned ExportOptions object that was first used (with a new Exporter) for a
+    one-spine document and a two-spine document; options describe a selection, not a document, so the text must equal
+    what kernpy.dumps gives with the same options"""
+    primed_exporter()  # fills _PRIMER_DOCS
+    okw = {('kern_type' if k == 'encoding' else k): v for k, v in kw.items()}
+    opts = kp.core.generic.Generic.parse_options_to_ExportOptions(**okw)
+    for d in (_PRIMER_DOCS[2], _PRIMER_DOCS[1]):
+        try:
+            kp.Exporter().export_string(d, opts)
+        except Exception:  # noqa  (e.g. a spine id that the small document does not have)
+            pass
+    return kp.Exporter().export_string(doc, opts)
+
+
+def via_dump_file(doc, **kw):
+    """the same export through kernpy.dump (file on disk)"""
+    import os
+    import tempfile
+    with tempfile.TemporaryDirectory(prefix='kv_dump_') as d:
+        path = os.path.join(d, 'out.krn')
+        kp.dump(doc, path, **kw)
+        with open(path, encoding='utf-8', newline='') as f:
+            return f.read()
